@@ -8,6 +8,8 @@ import c12
 
 THEOREMS = ["Gen.linkage_spec", "Gen.callconv_spec", "Gen.private_fast",
             "Gen.Addr.variable_access_well_typed", "Gen.Addr.parameter_access_well_typed", "Gen.Addr.steps_are_the_typers",
+            "Gen.Addr.variable_access_through_pointer_well_typed", "Gen.Addr.parameter_access_through_pointer_well_typed",
+            "Gen.Addr.stored_path_k", "Gen.Addr.trailing_run",
             "Gen.Addr.stored_path", "Gen.Addr.peel_run", "Gen.Addr.runT_snd"]
 
 
@@ -20,11 +22,12 @@ def address_correspondence(rep, rng, thorough, dist):
     got = run_harness(reqs)
     model = run_model([mreq for _, mreq, _ in cases])
     agreeing = accepted = 0
-    for (src, mreq, (kind, read, depth)), rq, a, mo in zip(cases, reqs, got, model):
+    for (src, mreq, (kind, read, depth, trailing)), rq, a, mo in zip(cases, reqs, got, model):
         hh, hd = kv(a)
         tag = "address:%s:%s:%s" % (kind, "read" if read else "write", hh[:8])
         dist[tag] += 1
         dist["address-depth:%d" % min(depth, 8)] += 1
+        dist["address-trailing-dereferences:%d" % trailing] += 1
         if hh != "ok":
             if hh.startswith("internal") or hh.startswith("panic"):
                 continue    # C02's business
